@@ -223,6 +223,28 @@ def rule_commute(rep, crate):
                     rep.viol(rid, 'commute:TypeParams:%s/%s:%s' % (a.split('::')[-1], b.split('::')[-1], ','.join(sorted(clash))), 'TypeParams::%s writes %s, which TypeParams::%s reads or writes: #[logos(...)] items handled by them do not commute' % (a.split('::')[-1], sorted(clash), b.split('::')[-1]), loc(crate.fns[a]))
 
 
+def rule_item_loops(rep, crate):
+    rid = rep.rule('M-C18d', 'every item of an attribute is processed: the loops of try_parse_logos and parse_definition over the comma separated items are left before exhaustion only on paths that have recorded an error', floor=2)
+    from mirlib import early_loop_exits
+    for name in ('parser::Parser::try_parse_logos', 'parser::Parser::parse_definition'):
+        fn = crate.fns.get(name)
+        if not rep.anchor(rid, 'fn ' + name, fn is not None):
+            continue
+        errs = [b for b, _t in find_calls(fn, r'(parser::Parser::err|error::Errors::err)$')]
+
+        def after_error(f, edge, errs=errs):
+            # an error is recorded on every path that leaves through this edge (before or after the exit itself)
+            if edge[0] in errs or edge[0] not in f.reachable(0, without_blocks=tuple(errs)):
+                return True
+            rest = f.reachable(edge[1], without_blocks=tuple(errs))
+            return not (rest & set(f.return_blocks())) and edge[1] not in errs or (edge[1] in errs)
+        ex = early_loop_exits(fn, r'(AttributeParser as std::iter::Iterator>::next|Enumerate<.*> as std::iter::Iterator>::next)$', allow=after_error)
+        rep.inst(rid, name.split('::')[-1] + ':item-loop', detail=dict(early_exits=len(ex)))
+        for h, e in ex:
+            rep.viol(rid, 'item-loop-left-early:%s' % name.split('::')[-1], '%s leaves its item loop early without having recorded an error: the items after this one are silently dropped, so the result depends on item order' % name, loc(fn, fn.blocks[e[0]]['term']['line']))
+            break
+
+
 def rule_positional(rep, crate):
     rid = rep.rule('M-C18c', 'the positional callback is accepted only as the first item after the literal (position 0), in parse_definition and in the error(...) item', floor=2)
     for name in ('parser::Parser::parse_definition', 'parser::Parser::try_parse_logos'):
@@ -255,6 +277,7 @@ def run(ctx, rep):
     rule_separator(rep, crate)
     rule_commute(rep, crate)
     rule_positional(rep, crate)
+    rule_item_loops(rep, crate)
     from props import cg
     cg.cg_controls(rep, ctx, [('M-C18a', rule_separator)])
     rep.trusted += ['rustc nightly MIR', 'engines/mirfacts']
